@@ -252,6 +252,12 @@ let () =
   let cbprog i = try Hashtbl.find cbs (int_of_z i) with Not_found -> [] in
   let fuel = nat_of_int 400000 in
   let bad = ref 0 and total = ref 0 in
+  (* hypotheses of RankSafe.handlers_never_nest_nor_run_masked, evaluated by the extracted definitions *)
+  let illegal = ref [] in
+  Hashtbl.iter (fun u l -> if not (List.for_all legal_h l) then illegal := Printf.sprintf "handler-%d" u :: !illegal) msgs;
+  Hashtbl.iter (fun i l -> if not (List.for_all legal_h l) then illegal := Printf.sprintf "callback-%d" i :: !illegal) cbs;
+  Hashtbl.iter (fun r l -> if legal_main O l <> Some O then illegal := Printf.sprintf "main-%d" r :: !illegal) mains;
+  Printf.printf "LEGAL %s\n" (if !illegal = [] then "ok" else String.concat "," !illegal);
   for me = 0 to n - 1 do
     (try
       let (toks, orc) = digest routing me logs.(me) in
